@@ -237,6 +237,20 @@ pub fn gen_case_other_dialect(t: &mut Tape) -> Case {
     c
 }
 
+/// a tree whose top-level right operand is shared through a derived column (see `check`)
+pub fn gen_case_shared(t: &mut Tape) -> Case {
+    let mut c = gen_case(t);
+    // a binary top: arithmetic / comparison over sub-trees
+    let ty = *t.pick(&[Ty::Int, Ty::Float, Ty::Int]);
+    let op = *t.pick(&[BinOp::DivF, BinOp::Mod, BinOp::DivI, BinOp::Mul, BinOp::Sub, BinOp::Add, BinOp::Pow]);
+    let (dl, dr) = (1 + t.choose(2), 1 + t.choose(3));
+    let l = tree(t, ty, dl);
+    let r = tree(t, ty, dr);
+    c.expr = Expr::Bin(op, Box::new(l), Box::new(r));
+    c.target = format!("{}+shared", t.pick(&["sqlite", "sqlite", "generic", "postgres", "duckdb", "mysql", "clickhouse", "mssql"]));
+    c
+}
+
 pub fn gen_case(t: &mut Tape) -> Case {
     let target = if t.chance(1, 2) { "generic" } else { "sqlite" }.to_string();
     let ty = *t.pick(&[Ty::Int, Ty::Bool, Ty::Float, Ty::Int, Ty::Bool, Ty::Text]);
@@ -524,12 +538,23 @@ pub fn has_const_null_cmp(e: &Expr, interp: &Interp) -> bool {
 // ------------------------------------------------------------------------------------------
 
 pub fn check(case: &Case, known: &Known, db: &Db) -> Outcome {
+    // `<dialect>+shared`: the right operand of the top-level operator is derived as a column of its
+    // own and referenced twice (once alone, once as the operand); the judged value is the second use
+    let shared = case.target.ends_with("+shared") && matches!(case.expr, Expr::Bin(..));
+    let target: &str = case.target.trim_end_matches("+shared");
     let printer = Printer { funcs: &[], redundant: false, cur_module: None };
     let text = printer.expr(&case.expr);
-    let src = format!("from v | select {{id, r = {text}}}");
-    let dialect = util::dialect_by_name(&case.target);
+    let src = match (&case.expr, shared) {
+        (Expr::Bin(op, l, r), true) => {
+            let with_col = Expr::Bin(*op, l.clone(), Box::new(Expr::Col(crate::model::ast::ColRef { idx: 0, text: "zs".into() })));
+            format!("from v | derive {{zs = {}}} | select {{id, r0 = zs, r = {}}}", printer.expr(r), printer.expr(&with_col))
+        }
+        _ => format!("from v | select {{id, r = {text}}}"),
+    };
+    let vi = if shared { 2 } else { 1 };
+    let dialect = util::dialect_by_name(&target);
     // generic emits the engine's `/`: integer / integer is not executable faithfully on SQLite
-    if case.target != "sqlite" {
+    if target != "sqlite" {
         let mut int_div = false;
         case.expr.walk(&mut |x| {
             if let Expr::Bin(BinOp::DivF, ..) = x {
@@ -573,7 +598,7 @@ pub fn check(case: &Case, known: &Known, db: &Db) -> Outcome {
             ("C02-const-null-fold", has_const_null_cmp(&case.expr, interp)),
             (
                 "C02-sqlite-divi-small-int",
-                case.target == "sqlite" && interp.touched.borrow().divi_small_int,
+                target == "sqlite" && interp.touched.borrow().divi_small_int,
             ),
         ];
         for (id, hit) in cands {
@@ -587,7 +612,7 @@ pub fn check(case: &Case, known: &Known, db: &Db) -> Outcome {
         Ok(r) => r,
         Err(e) => {
             let m = e.msg().to_string();
-            if case.target != "sqlite" && (m.contains("no such function") || m.contains("near \"") || m.contains("unrecognized token") || m.contains("wrong number of arguments")) && !m.contains("incomplete") {
+            if target != "sqlite" && (m.contains("no such function") || m.contains("near \"") || m.contains("unrecognized token") || m.contains("wrong number of arguments")) && !m.contains("incomplete") {
                 return Outcome::skip("generic_not_executable").class("generic_not_executable");
             }
             // evaluate once so that `touched` is filled for attribution
@@ -606,7 +631,7 @@ pub fn check(case: &Case, known: &Known, db: &Db) -> Outcome {
     for r in &res.rows {
         if let Val::Int(i) = &r[0] {
             if (*i as usize) < by_id.len() {
-                by_id[*i as usize] = Some(&r[1]);
+                by_id[*i as usize] = r.get(vi);
             }
         }
     }
@@ -656,7 +681,7 @@ pub fn check(case: &Case, known: &Known, db: &Db) -> Outcome {
                         }
                     }
                     if got != want {
-                        let detail = json!({"source": fsrc, "sql": fsql, "target": case.target, "expected_ids": want, "got_ids": got});
+                        let detail = json!({"source": fsrc, "sql": fsql, "target": target, "expected_ids": want, "got_ids": got});
                         let mut o = Outcome::fail("as a filter condition the tree keeps other rows than the documented operand tree", detail);
                         if let Some((id, what)) = attribute(&interp) {
                             o.verdict = Verdict::Known(id, what);
@@ -668,10 +693,10 @@ pub fn check(case: &Case, known: &Known, db: &Db) -> Outcome {
         }
     }
     let mut out = Outcome::pass();
-    out.key = hash_of(&(&src, &case.target));
+    out.key = hash_of(&(&src, &target));
     out.nontrivial = case.expr.depth() >= 2 && nonnull && distinct_vals.len() >= 2;
     out.classes.push(format!("depth={}", case.expr.depth().min(6)));
-    out.classes.push(format!("target={}", case.target));
+    out.classes.push(format!("target={}", target));
     if amb > 0 {
         out.classes.push("has_ambiguous_rows".into());
     }
@@ -680,7 +705,7 @@ pub fn check(case: &Case, known: &Known, db: &Db) -> Outcome {
     }
     out.sample = Some(json!({"prql": src, "sql": sql, "rows_judged": judged}));
     if let Some((i, expect, got)) = bad {
-        let detail = json!({"source": src, "sql": sql, "target": case.target, "row": rows[i].iter().map(|v| v.show()).collect::<Vec<_>>(),
+        let detail = json!({"source": src, "sql": sql, "target": target, "row": rows[i].iter().map(|v| v.show()).collect::<Vec<_>>(),
             "expected": expect.show(), "got": got.show()});
         out.verdict = match attribute(&interp) {
             Some((id, what)) => Verdict::Known(id, what),
@@ -712,6 +737,7 @@ pub fn run(ctx: &Ctx) -> i32 {
         gen_case,
         |c| check(c, &ctx.known, &db),
     );
+    ctx.tape_search("random-trees/shared-operand", ctx.n(6_000, 150_000), 200, gen_case_shared, |c| check(c, &ctx.known, &db));
     ctx.tape_search("random-trees/other-dialects-on-sqlite", ctx.n(12_000, 300_000), 200, gen_case_other_dialect, |c| check(c, &ctx.known, &db));
     ctx.finish(
         "(1) every type-correct (parent operator, child operator, left|right) combination of the 16 executable binary operators over column/literal leaves, plus each under a unary operator and inside a larger context, printed with the parentheses the documented precedence table requires and no others; (2) random typed trees to depth 5 over columns, literals and null with all binary and unary operators, case, in-range and ??. Each tree is evaluated by SQLite on the 675-row cross product of the value domain (NULL, -2, 0, 1, 3; 0.5, -1.5; true/false; 'a','b') and compared per row with the reference evaluation of the intended tree. non-trivial = depth >= 2, some non-NULL result, >= 2 distinct results; distinct = (source, target)",
